@@ -526,8 +526,17 @@ def main(run):
     run.build_props()
 
     groups = {}          # pset.k -> (PS, terms, cases)
+    psdesc = {}          # pset name -> description (cases only carry the name, to keep memory small)
+
+    def viol(what, case, **kw):
+        c = dict(case)
+        if isinstance(c.get("pset"), str):
+            c["pset"] = psdesc.get(c["pset"], c["pset"])
+        run.oracle_violation(what, c, **kw)
 
     def emit(ps, term, case, nontrivial=True):
+        if ps.name not in psdesc:
+            psdesc[ps.name] = ps.describe()
         g = groups.setdefault(ps.k, (ps, [], []))
         g[1].append(term)
         g[2].append(case)
@@ -572,7 +581,7 @@ def main(run):
         wt_budget[0] -= 1
         probs = structure_problems(gp, nodes, expected)
         oc = not any(("incomplete" in p_) or ("orphan" in p_) or ("empty" in p_) for p_ in probs)
-        case = {"kind": "wt", "pset": ps.k, "tree": names(ps, nodes), "expected": expected.__name__, "observed": [oc, not probs]}
+        case = {"kind": "wt", "pset": ps.name, "tree": names(ps, nodes), "expected": expected.__name__, "observed": [oc, not probs]}
         emit(ps, "CWt U%d S%d %d %s %s %s" % (ps.k, ps.k, ps.tid[expected], clit(ps.lit(nodes)), cbool(oc), cbool(not probs)), case,
              len(nodes) > 1)
 
@@ -594,12 +603,12 @@ def main(run):
     def gen_case(ps, kind, mn, mx, type_, src):
         out, log = with_proxy(src, lambda: GENS[kind](ps.pset, mn, mx, type_))
         t_eff = ps.pset.ret if type_ is None else type_
-        case = {"kind": "gen", "pset": ps.describe(), "gen": kind, "min": mn, "max": mx,
+        case = {"kind": "gen", "pset": ps.name, "gen": kind, "min": mn, "max": mx,
                 "type": None if type_ is None else type_.__name__, "draws": [e[:3] if e[0] == "choice" else e for e in log]}
         if out[0] == "raise":
             case["observed"] = out[1]
             if not (out[1] == "IndexError" and reachable_gap(ps, t_eff)):
-                run.oracle_violation("generator raised %s although the set offers nodes at every reachable type" % out[1], case)
+                viol("generator raised %s although the set offers nodes at every reachable type" % out[1], case)
             lit = None
             if out[1] not in ("IndexError", "ValueError"):
                 run.note_case(case)
@@ -609,18 +618,18 @@ def main(run):
             case["observed"] = names(ps, expr)
             probs = structure_problems(gp, expr, t_eff)
             if probs:
-                run.oracle_violation("generated expression is not a complete well-typed prefix expression: " + probs[0], case)
+                viol("generated expression is not a complete well-typed prefix expression: " + probs[0], case)
             else:
                 h, leaves = depths(expr)
                 if not (mn <= h <= mx):
-                    run.oracle_violation("generated height %d outside [%d, %d]" % (h, mn, mx), case)
+                    viol("generated height %d outside [%d, %d]" % (h, mn, mx), case)
                 actual_full = kind == "full" or (kind == "half" and log[0][2] == 1)
                 if actual_full and any(d != h for d in leaves):
-                    run.oracle_violation("full generator: leaves at different depths %r" % (sorted(set(leaves)),), case)
+                    viol("full generator: leaves at different depths %r" % (sorted(set(leaves)),), case)
                 if not actual_full and any(d < mn for d in leaves):
-                    run.oracle_violation("grow generator: leaf shallower than min (%d < %d)" % (min(leaves), mn), case)
+                    viol("grow generator: leaf shallower than min (%d < %d)" % (min(leaves), mn), case)
                 if gp.PrimitiveTree(expr).height != h:
-                    run.oracle_violation("reported height %d differs from depth of deepest node %d" % (gp.PrimitiveTree(expr).height, h), case)
+                    viol("reported height %d differs from depth of deepest node %d" % (gp.PrimitiveTree(expr).height, h), case)
             lit = ps.lit(expr)
             wt_case(ps, expr, t_eff)
         term = "CGen U%d P%d %s %s %s %s" % (ps.k, ps.k, cgexpr((kind, mn, mx)),
@@ -644,20 +653,20 @@ def main(run):
                 out = ("ok", (s.start, s.stop))
             except IndexError:
                 out = ("raise", "IndexError")
-            case = {"kind": "search", "pset": ps.k, "tree": names(ps, nodes), "index": i, "observed": out[1]}
+            case = {"kind": "search", "pset": ps.name, "tree": names(ps, nodes), "index": i, "observed": out[1]}
             if wf:
                 exp = parse(nodes, i)
                 if out != ("ok", (i, exp[2])):
-                    run.oracle_violation("searchSubtree(%d) is not the span of the subtree rooted there (expected %r)" % (i, (i, exp[2])), case)
+                    viol("searchSubtree(%d) is not the span of the subtree rooted there (expected %r)" % (i, (i, exp[2])), case)
             emit(ps, "CSearch U%d %s %s %s" % (ps.k, clit(ps.lit(nodes)), cnat(i),
                                               coutcome(out, lambda p: "(%s, %s)" % (cnat(p[0]), cnat(p[1])))), case, len(nodes) > 1)
         try:
             out = ("ok", tree.height)
         except IndexError:
             out = ("raise", "IndexError")
-        case = {"kind": "height", "pset": ps.k, "tree": names(ps, nodes), "observed": out[1]}
+        case = {"kind": "height", "pset": ps.name, "tree": names(ps, nodes), "observed": out[1]}
         if wf and out != ("ok", depths(nodes)[0]):
-            run.oracle_violation("height is not the depth of the deepest node (expected %d)" % depths(nodes)[0], case)
+            viol("height is not the depth of the deepest node (expected %d)" % depths(nodes)[0], case)
         emit(ps, "CHeight U%d %s %s" % (ps.k, clit(ps.lit(nodes)), coutcome(out, cz)), case, len(nodes) > 1)
 
     def setslice_cases(ps, t, other):
@@ -678,7 +687,7 @@ def main(run):
                 out = ("raise", "IndexError")
             except ValueError:
                 out = ("raise", "ValueError")
-            case = {"kind": "setslice", "pset": ps.k, "tree": names(ps, t), "slice": [b, e], "value": names(ps, v), "observed": out[1]}
+            case = {"kind": "setslice", "pset": ps.name, "tree": names(ps, t), "slice": [b, e], "value": names(ps, v), "observed": out[1]}
             emit(ps, "CSetSlice U%d %s %s %s %s %s" % (ps.k, clit(ps.lit(t)), cnat(b), cnat(e), clit(ps.lit(v)), coutcome(out, clit)), case)
 
     # ---------------------------------------------------------------- operators
@@ -714,7 +723,7 @@ def main(run):
             THRESHOLDS[0] = float(ps.ratio)
         out, log = with_proxy(src, lambda: [list(t) for t in fn(*args, **kw)])
         exp_t = ps.pset.ret if in_type is None else in_type
-        case = {"kind": "op", "pset": ps.describe(), "op": list(op), "limit": limit,
+        case = {"kind": "op", "pset": ps.name, "op": list(op), "limit": limit,
                 "inputs": [names(ps, t) for t in inputs], "draws": [e[:3] if e[0] == "choice" else e for e in log]}
         in_ok = all(not structure_problems(gp, t, exp_t) for t in inputs)
         lits = None
@@ -730,7 +739,7 @@ def main(run):
             if op[0] == "eph" and op[1] not in ("one", "all") and out[1] == "ValueError":
                 legit = True
             if in_ok and not legit:
-                run.oracle_violation("operator raised %s on well-formed inputs" % out[1], case)
+                viol("operator raised %s on well-formed inputs" % out[1], case)
             if out[1] not in ("IndexError", "ValueError"):
                 run.note_case(case)
                 return out, log
@@ -744,21 +753,21 @@ def main(run):
                 for j, t in enumerate(res):
                     probs = structure_problems(gp, t, exp_t)
                     if probs:
-                        run.oracle_violation("operator output %d is not a complete well-typed prefix expression: %s" % (j, probs[0]), case)
+                        viol("operator output %d is not a complete well-typed prefix expression: %s" % (j, probs[0]), case)
                 if limit is None:
                     if op[0] in ("cx", "cxlb") and sum(map(len, res)) != sum(map(len, inputs)):
-                        run.oracle_violation("crossover does not conserve the total node count", case)
+                        viol("crossover does not conserve the total node count", case)
                     if op[0] == "shrink" and len(res[0]) > len(inputs[0]):
-                        run.oracle_violation("shrink mutation grew the tree", case)
+                        viol("shrink mutation grew the tree", case)
                     if op[0] == "insert" and len(res[0]) < len(inputs[0]):
-                        run.oracle_violation("insert mutation shrank the tree", case)
+                        viol("insert mutation shrank the tree", case)
                 else:
                     def meas(t):
                         return depths(t)[0] if limit[0] == "height" else len(t)
                     if all(meas(t) <= limit[1] for t in inputs):
                         for j, t in enumerate(res):
                             if not structure_problems(gp, t, exp_t) and meas(t) > limit[1]:
-                                run.oracle_violation("staticLimit(%s, %d) returned a tree measuring %d" % (limit[0], limit[1], meas(t)), case)
+                                viol("staticLimit(%s, %d) returned a tree measuring %d" % (limit[0], limit[1], meas(t)), case)
         o = out if lits is None else ("ok", lits)
         ocoq = coutcome(o, lambda ls: clist([clit(l) for l in ls]))
         ins = clist([clit(ps.lit(t)) for t in inputs])
@@ -807,7 +816,7 @@ def main(run):
         return n
 
     # ---------------------------------------------------------------- psets
-    npsets = run.scale(10, 32)
+    npsets = run.scale(10, 28)
     psets = []
     for i in range(npsets):
         typed = i % 2 == 1
@@ -818,13 +827,13 @@ def main(run):
         small_sets += [PS(gp, True, rng, small=True) for _ in range(2)]
     # the tables themselves: model of _add against pset.primitives / pset.terminals
     for ps in psets + small_sets + [PS(gp, True, rng, gappy=(i % 3 == 0)) for i in range(run.scale(20, 200))]:
-        case = {"kind": "pset", "pset": ps.describe(), "adds": [(x.name, isp) for x, isp in ps.addlog]}
+        case = {"kind": "pset", "pset": ps.name, "adds": [(x.name, isp) for x, isp in ps.addlog]}
         probs = ps.table_problems()
         if probs:
-            run.oracle_violation("primitive-set table is not the pool of subclass-compatible nodes: " + probs[0], case)
+            viol("primitive-set table is not the pool of subclass-compatible nodes: " + probs[0], case)
         ratio = ps.pset.terminalRatio
         if Fraction(ratio) != ps.ratio:
-            run.oracle_violation("terminalRatio is not terms/(terms+prims)", case, observed=ratio)
+            viol("terminalRatio is not terms/(terms+prims)", case, observed=ratio)
         emit(ps, ps.pset_term(), case)
 
     all_mm = [(a, b) for a in range(0, 7) for b in range(a, 7)]
@@ -861,7 +870,7 @@ def main(run):
                 ext = gp.PrimitiveTree(list(t) + [t[-1]])
                 search_height_cases(ps, ext, all_indices=False)
                 setslice_cases(ps, t, rng.choice(small))
-        nops = run.scale(60, 250)
+        nops = run.scale(60, 200)
         for _ in range(nops):
             op = rand_op(ps)
             ins = [list(rng.choice(small)) for _ in range(arity2(op))]
@@ -884,21 +893,21 @@ def main(run):
     maxn = 5
     for ps in small_sets:
         trees = enum_trees(ps, ps.pset.ret, maxn)
-        if len(trees) > run.scale(40, 120):
-            trees = rng.sample(trees, run.scale(40, 120))
+        if len(trees) > run.scale(40, 100):
+            trees = rng.sample(trees, run.scale(40, 100))
         for t in trees:
             search_height_cases(ps, gp.PrimitiveTree(t), all_indices=True)
         ops1 = [("noderepl",), ("eph", "one"), ("eph", "all"), ("insert",), ("shrink",), ("uniform", ("grow", 0, 1)),
                 ("uniform", ("full", 1, 1))]
-        budget = run.scale(16, 40)
+        budget = run.scale(16, 30)
         for t in trees:
             for op in ops1:
                 enumerate_draws(ps, op, [t], budget)
             enumerate_draws(ps, ("shrink",), [t], budget, limit=("height", 2))
             enumerate_draws(ps, ("insert",), [t], budget, limit=("len", len(t)))
         pairs = [(a, b) for a in trees for b in trees]
-        if len(pairs) > run.scale(80, 400):
-            pairs = rng.sample(pairs, run.scale(80, 400))
+        if len(pairs) > run.scale(80, 300):
+            pairs = rng.sample(pairs, run.scale(80, 300))
         for a, b in pairs:
             enumerate_draws(ps, ("cx",), [a, b], budget)
             enumerate_draws(ps, ("cxlb", 0.5), [a, b], budget)
@@ -944,3 +953,11 @@ def main(run):
         terms += ts
         cases += cs
     run.correspond("all", "C11", terms, cases, preamble=pre, shard=300)
+    for d in run.disagreements:
+        c = d.get("case")
+        if isinstance(c, dict) and isinstance(c.get("pset"), str):
+            c = dict(c)
+            nm = c["pset"]
+            c["pset"] = psdesc.get(nm, nm)
+            c["pset_coq"] = next((g[0].coq_defs() for g in groups.values() if g[0].name == nm), None)
+            d["case"] = c
